@@ -110,7 +110,8 @@ def run_on(backend, hist):
         rig.close()
 
 
-TIMEOUT_SYMS = ["MKD n", "DELE b", "RMD c", "T:STOR b", "T:STOR new", "T:APPE b", "RNFR b|RNTO moved", "MKD a/s/t/deep"]
+TIMEOUT_SYMS = ["MKD n", "DELE b", "RMD c", "T:STOR b", "T:STOR new", "T:APPE b", "RNFR b|RNTO moved", "MKD a/s/t/deep",
+                "T:RETR b", "T:RETR a/x", "T:LIST a", "T:MLSD a", "MLST b"]
 
 
 def run_timeout(sym, chooser):
@@ -136,10 +137,10 @@ def run_timeout(sym, chooser):
             r = rig.ev(0, line) or []
             cs = [c for c, _ in r]
             if transfer and cs and cs[-1][:1] == "1" and s.data is not None:
-                rig.ev(0, "@dsend " + PAYLOAD.decode())
+                r1 = rig.ev(0, "@dsend " + PAYLOAD.decode()) or []
                 r2 = rig.ev(0, "@dclose") or []
                 rig.collect()
-                cs += [c for c, _ in r2]
+                cs += [c for c, _ in r1] + [c for c, _ in r2]
             codes.append(cs)
         chooser.active = False
         rig.world.settle(2)
@@ -157,6 +158,11 @@ def run_timeout(sym, chooser):
                              "before": repr(before)[:200], "after": repr(after)[:200]})
         if s.closed():
             problems.append({"kind": "session-ended", "step": sym, "codes": codes})
+        for cs in codes:
+            # a backend call that times out fails the command it belongs to - one final reply, like any other failure
+            if len([c for c in cs if not c.startswith("1")]) != 1:
+                problems.append({"kind": "not-exactly-one-final-reply-when-the-backend-times-out", "step": sym, "codes": codes})
+                break
         return {"problems": problems, "events": rig.world.net.n_events, "trace": report.fp(rig.world.net.trace),
                 "outcome": report.fp([codes, after == before])}
     finally:
